@@ -4,6 +4,11 @@ import json, os, sys
 sys.path.insert(0, os.path.dirname(os.path.abspath(__file__)))
 import manifest_data as M
 V = os.path.dirname(os.path.dirname(os.path.abspath(__file__)))
+md = os.path.join(V, "lib", "manifest.d")
+if os.path.isdir(md):
+    for f in sorted(os.listdir(md)):
+        if f.endswith(".json"):
+            M.CLAIMED.setdefault(f[:-5], {}).update(json.load(open(os.path.join(md, f))))
 ids = [json.loads(l)["id"] for l in open(os.path.join(V, "properties.jsonl"))]
 checks = []
 for cid in ids:
